@@ -17,6 +17,10 @@ import traceback
 
 ROOT = os.path.dirname(os.path.dirname(os.path.abspath(__file__)))
 sys.path.insert(0, ROOT)
+# Runs against another checkout (KNEE_REPO, used for self-tests on mutated scratch copies) must never overwrite the
+# evidence and replay files of the real tree.
+ALT = os.environ.get("KNEE_REPO", "/repo").rstrip("/") != "/repo"
+OUT = os.path.join(ROOT, ".scratch", "alt") if ALT else ROOT
 
 from harness import tlc  # noqa: E402
 
@@ -206,7 +210,7 @@ class Ctx:
                 pass
             else:
                 return
-        d = os.path.join(ROOT, "replays", self.pid)
+        d = os.path.join(OUT, "replays", self.pid)
         os.makedirs(d, exist_ok=True)
         obj = {"property": self.pid, "clause": clause, "detail": detail, "case": case}
         path = os.path.join(d, jhash(obj) + ".json")
@@ -245,11 +249,11 @@ class Ctx:
         if self.exhaustive is not None:
             ev["coverage"]["exhaustive"] = bool(self.exhaustive)
         ev["coverage"].update(self.extra)
-        os.makedirs(os.path.join(ROOT, "evidence"), exist_ok=True)
-        tmp = os.path.join(ROOT, "evidence", self.pid + ".json.tmp")
+        os.makedirs(os.path.join(OUT, "evidence"), exist_ok=True)
+        tmp = os.path.join(OUT, "evidence", self.pid + ".json.tmp")
         with open(tmp, "w") as f:
             json.dump(ev, f, indent=1, default=str)
-        os.replace(tmp, os.path.join(ROOT, "evidence", self.pid + ".json"))
+        os.replace(tmp, os.path.join(OUT, "evidence", self.pid + ".json"))
 
     def cleanup(self):
         shutil.rmtree(self.scratch, ignore_errors=True)
